@@ -876,6 +876,32 @@ fn c02_op_handler() {
     }
 }
 
+// The same dispatcher contract on the smallest interesting state (one signal, exactly one action, no fallback): cheap enough
+// to finish also when the dispatcher is restructured into something the arbitrary-state harness above cannot afford
+// (seed C02c: one reader section per action in a `loop`).
+#[kani::proof]
+#[kani::stub(Prev::execute, prev_execute_contract)]
+#[kani::unwind(10)]
+#[kani::stub(half_lock::WriteGuard::<T>::store, half_lock::verif_contract::store_contract)]
+#[kani::stub(alloc::sync::Arc::<T, A>::drop_slow, half_lock::verif_contract::arc_drop_slow_stub)]
+#[kani::stub(std::sync::Mutex::<T>::lock, delivery_lock_stub)]
+#[kani::stub(std::thread::yield_now, delivery_wait_stub)]
+#[kani::stub(core::sync::atomic::spin_loop_hint, delivery_wait_stub)]
+#[kani::stub(core::hint::spin_loop, delivery_wait_stub)]
+#[kani::stub(core::sync::atomic::Atomic::<usize>::fetch_add, half_lock::verif_contract::fetch_add_counting)]
+fn c02_op_handler_tiny() {
+    lm::link();
+    unsafe {
+        let st = arbitrary_state_shape(1, 0, false);
+        kani::assume(st.na == 1);
+        hc::READER_INCS = 0;
+        deliver(st.a);
+        assert!(hc::READER_INCS == 2, "C02.ONE-SNAPSHOT: a delivery opens exactly one reader section on the fallback and exactly one on the registry snapshot - every action it runs comes from that one snapshot");
+        assert!(log_is(&[PREV3, 1]), "C02.ORDER: a delivery runs exactly the actions of its signal in the one snapshot it read, each once, in id (= registration) order");
+        assert!(quiescent(), "C03.READ-BALANCED: the delivery leaves both reader counts as it found them and touches no mutex");
+    }
+}
+
 // C14.ERR-NO-PUBLISH : the OS refuses the signal (query or install fails) => Err, nothing published
 #[kani::proof]
 #[kani::stub(Prev::execute, prev_execute_contract)]
